@@ -39,6 +39,23 @@ CHECKS = {
          "(constructor of Canonicalizer / ensure_ordering use dict and enumerate code outside the subset).",
          TRUST + "; laws of y0vc/exprs.py LAWS incl. the sum-congruence rule (a callee contract proved for an arbitrary environment holds at every summation point)",
          TECH + " (QF_UFNRA, structural induction via the function's own contract) + bounded run-time contracts with exact evaluation", "DESIGN.md §5 C10"),
+ "C02": ("other", "Proved for all graphs and queries (sets/relations, closures): on a valid query over an acyclic graph `identify` raises nothing but Unidentifiable -- every library "
+         "precondition (nx.ancestors, is_connected on a non-null graph, topological_sort on an acyclic graph, set.pop, list.index in p_conditional) and every ValueError guard of "
+         "line_2/line_3 is shown unreachable; its own `raise Unidentifiable` is reachable only under the published line-5 condition (G-X one district and G one district); every "
+         "recursive call is again a valid query over an acyclic graph; line_1/2/3/7 build exactly the published recursive arguments (outcomes, treatments, graph, summation ranges); "
+         "no function writes to an object reachable from its arguments (frame) and Identification gets a fresh copy of the graph. Undecided (solver budget) and left to the bounded "
+         "stand-in: the two line_7 guard obligations at its call site and line_7's final ValueError. Bounded part (decides 'refuses exactly when not identifiable' and 'caller's "
+         "objects unchanged' end to end): identify_outcomes on every ADMG with 2-3 nodes x every query, textbook graphs, sampled 4-6 node ADMGs (incl. string-labelled graphs), "
+         "against an independent c-component identifiability criterion. Termination is not verified.",
+         TRUST + "; trusted mathematics: hedge criterion (Shpitser & Pearl 2006) = Tian-Pearl c-component criterion used by the oracle; assumed contracts: p_conditional, Product.safe over an index set (opaque)",
+         TECH + " + bounded end-to-end check against an independent identifiability oracle", "DESIGN.md §5 C02"),
+ "C01": ("other", "Shape layer proved for all graphs/queries: line_1, line_2, line_3, line_7 of ID build exactly the published recursive arguments -- outcomes, treatments (x & An(Y); x | W; x & S'), "
+         "graph (G[An(Y)]; G; G[S']) and the summation ranges (V-Y; V-An(Y)) -- and `identify` follows the published case split (see C02). The expressions built in lines 4, 6, 7 "
+         "(products of conditionals over a district, p_conditional) are opaque to the prover; that the returned estimand equals P(Y|do(X)) is decided by the labelled bounded stand-in: "
+         "exact evaluation on random positive SCMs (one latent per bidirected edge), all value assignments including free variables, for every ADMG on 2-3 nodes x every query, a "
+         "catalogue of textbook graphs (napkin, front-door, Verma, ...; extended with two 5-6 node shapes after seeded changes were missed), and sampled 4-6 node ADMGs.",
+         TRUST + "; trusted mathematics: soundness of ID (Shpitser & Pearl 2006, Thm 5) only for the reading of the shape layer; the bounded part trusts the exact SCM evaluator (y0vc/scm.py)",
+         TECH + " (shape layer) + bounded exact-SCM evaluation of the estimand", "DESIGN.md §5 C01"),
 }
 NA = {
 }
